@@ -108,6 +108,18 @@ pub fn j_views(ts: TimeScale, c: i128, leap: &LeapTable, out: &mut Local) {
                 }
             }
             out.metric_max("float_view_max_ulps", worst);
+            // the {:p} form is documented as the UNIX view of the epoch: the text of to_unix_seconds() (judged above)
+            match guard(|| (format!("{e:p}"), format!("{}", e.to_unix_seconds()))) {
+                Ok((p, u)) if p == u => {}
+                Ok((p, u)) => {
+                    out.viol("c17.views", "pointer-format-differs-from-to_unix_seconds".into(), args, u, p);
+                    return;
+                }
+                Err(p) => {
+                    out.viol("c17.views", format!("panic:{},pointer-format", p.class()), args, "no panic".into(), format!("{} {}", p.loc, p.msg));
+                    return;
+                }
+            }
             let nt = ts != TimeScale::TAI || c < 0;
             out.ok(n, nt, (ts as u64) | ((c < 0) as u64) << 4 | (utc.is_some() as u64) << 5);
             if out.want_sample(nt) {
